@@ -23,10 +23,15 @@ ASSUMPTIONS = ['"visible to user code" = identifiers occurring in the original s
                'introduced names = names bound in the generated function that are not bound in the original']
 
 VOCAB = ('do_return', 'retval_', 'break_', 'continue_', 'fscope', 'lscope', 'get_state', 'set_state', 'if_body', 'else_body',
-         'loop_body', 'loop_test', 'extra_test', 'itr', 'vars_', 'ag__f', 'inner_factory', 'outer_factory')
+         'loop_body', 'loop_test', 'extra_test', 'itr', 'vars_', 'ag__f', 'inner_factory', 'outer_factory',
+         # first numbered variants (what a nested function / second statement gets)
+         'fscope_1', 'get_state_1', 'loop_body_1', 'do_return_1')
 NUMBERED = tuple(v + '_1' for v in VOCAB) + ('block_vars', 'ag__inner', 'ag__lam')
 ROLES = ('state', 'assigned', 'readonly', 'param', 'globalread', 'globaldecl', 'closure', 'fnname', 'looptarget', 'lambdaparam',
-         'globalcall', 'nestedglobal')
+         'globalcall', 'nestedglobal',
+         # the variable of `except E as V` (block inside the handler, V read after it); a name first mentioned AFTER the
+         # block, in the body of an enclosing loop; the parameter of a lambda inside a nested def whose body makes a call
+         'exceptvar', 'afterblock', 'nestedlambdaparam')
 BLOCKS = ('if', 'while', 'forbreak', 'forcontinue', 'retloop', 'nesteddef', 'lambda')
 _S = {'tier': 'quick'}
 
@@ -75,6 +80,8 @@ def render(item, pid=0):
     use = ['t(%d, %s())' % (K(), V)]
   elif role == 'lambdaparam':
     use = ['q = (lambda %s: %s + 1)(q)' % (V, V)]
+  elif role in ('exceptvar', 'afterblock', 'nestedlambdaparam'):
+    use = ['q = q * 10 + %d' % K()]
   if W:
     use = use + ['t(%d, %s)' % (K(), W)]
   ind = lambda ls: ['    ' + l for l in ls]
@@ -106,6 +113,12 @@ def render(item, pid=0):
       body = ['q = (lambda %s: %s + 1 if c(%d) else %s)(q)' % (V, V, K(), V)]
     else:
       body = ['q = (lambda: %s if c(%d) else 0)()' % (V, K())]
+  if role == 'exceptvar':
+    body = (['try:', '    raise E(mark(%d))' % K(), 'except E as %s:' % V] + ind(body + ['t(%d, type(%s).__name__)' % (K(), V)]))
+  elif role == 'afterblock':
+    body = ['for j in it(%d):' % K()] + ind(body + ['%s = %d' % (V, K()), 't(%d, %s)' % (K(), V)])
+  elif role == 'nestedlambdaparam':
+    body = body + ['def inner2():', '    return (lambda %s: t(%d, %s))(q)' % (V, K(), V), 'q = inner2()']
   pre = ['q = 1']
   post = []
   params = 'zo, d'
@@ -132,7 +145,7 @@ def render(item, pid=0):
     glob[V] = 'CALLABLE'
   if W:
     pre.append('%s = 4' % W)
-  ret = ['return (%d, q, %s)' % (pid, V if role not in ('fnname', 'globalcall', 'lambdaparam', 'nestedglobal') else 'q')]
+  ret = ['return (%d, q, %s)' % (pid, V if role not in ('fnname', 'globalcall', 'lambdaparam', 'nestedglobal', 'exceptvar', 'afterblock', 'nestedlambdaparam') else 'q')]
   lines = ['def f(%s):' % params] + ['    ' + l for l in pre + body + post + ret]
   if role == 'closure':
     lines = ['def make():', '    %s = 3' % V] + ['    ' + l for l in lines] + ['    return f', 'f = make()']
@@ -264,7 +277,7 @@ def check(item):
     sig = '%s|name=%s|role=%s|block=%s|with=%s' % (kind, item[0], item[1], item[2], item[3])
     if kind == 'convert-error':
       sig += '|' + msg[:100]
-    if kind == 'generated-name-visible' and item[1] == 'lambdaparam':
+    if kind == 'generated-name-visible' and item[1] in ('lambdaparam', 'nestedlambdaparam'):
       # one documented class: the clashing user name is bound only as a parameter of a nested lambda, where it shadows
       # the generated symbol (no capture: behaviour is checked separately)
       sig = 'generated-name-visible|parameter-of-nested-lambda'
